@@ -299,6 +299,9 @@ func (p party) connData(res *partyResult) *mailbox.ConnData {
 type hsOpts struct {
 	editI2R, editR2I   func(index int, chunk []byte) ([][]byte, bool)
 	maxReadI, maxReadR int // fragmentation seen by the initiator / responder
+	// reuseI: the initiator keeps the ConnData of an earlier handshake (a
+	// reconnect of the same client)
+	reuseI *mailbox.ConnData
 }
 
 // runHandshake runs DoHandshake on both sides over a fresh duplex.
@@ -308,6 +311,9 @@ func runHandshake(ini, rsp party, o hsOpts) (ri, rr *partyResult, d *duplex, err
 	d.r2i.maxRead, d.i2r.maxRead = o.maxReadI, o.maxReadR
 	ri, rr = &partyResult{}, &partyResult{}
 	ri.connData, rr.connData = ini.connData(ri), rsp.connData(rr)
+	if o.reuseI != nil {
+		ri.connData = o.reuseI
+	}
 
 	mk := func(p party, res *partyResult, initiator bool) error {
 		m, err := mailbox.NewBrontideMachine(&mailbox.BrontideMachineConfig{
